@@ -138,8 +138,10 @@ func VP_C12_queryinfo() {
 
 //vp:property C12
 //vp:set hosts 2 3
-//vp:set affix 1 2
+//vp:set affix 1 1
 //vp:set user 2 3
+//vp:set maxpaths 200000 900000
+//vp:set budget 300 1500
 //vp:bounds selection mode in {roundrobin, unsigned, any}; 1..hosts entries prefix++[placeholder]++suffix; non-empty user name <= user bytes; the file's host = chosen entry with the user substituted (any mode: arbitrary host <= 4 bytes); same client address at issuance and use; both VerifyClientIP settings
 //vp:assume the IdP's userinfo subject equals the session user name (DESIGN 7.14): the tunnel user is taken from the IdP, the file host from the session
 //vp:reach accepted
